@@ -1,4 +1,5 @@
 import Cgm.Lemmas.AuditCmd
 import Cgm.E2E.C02
 import Cgm.E2E.C02g
+import Cgm.E2E.C02i
 #audit_namespace Cg.E2E.C02
